@@ -126,3 +126,139 @@ def _replay_select_invalid(prop, harness, rec):
     if o.get("ret") != -1 or o.get("errno") != 22:
         return {"status": "reproduced", "detail": f"select(tv_sec={sec}, tv_usec={usec}) returned {o}", "tried": [r]}
     return {"status": "not_reproduced", "detail": f"returned -1/EINVAL: {o}"}
+
+
+# ---------------------------------------------------------------- C16/C18 single-buffer socket I/O
+_KINDS = {0: "d", 1: "a", 2: "i", 3: "r", 4: "e"}
+
+
+def _script_from(rec, start=0, k=3):
+    items = []
+    for i in range(k):
+        kind = _int(rec, start + 2 * i, signed=False)
+        n = _int(rec, start + 2 * i + 1, signed=False)
+        if kind is None or n is None:
+            break
+        c = _KINDS.get(kind, "r")
+        items.append(f"d{n}" if c == "d" else c)
+    return items
+
+
+def _io_oracle(o, blocking, entry, length):
+    """Mirror of the harness oracle on a native run. Returns list of violated clauses."""
+    bad = []
+    if o is None:
+        return ["no output (crash)"]
+    r, moved = o["ret"], o["moved"]
+    if r >= 0 and r != moved:
+        bad.append(f"returned {r} but {moved} bytes were moved")
+    if r < 0 and (r != -1 or moved != 0):
+        bad.append(f"returned {r} after {moved} bytes were moved")
+    if r == -1 and moved == 0 and o["calls"] > 0 and o["errno"] != o["last_errno"]:
+        bad.append(f"errno {o['errno']} is not the failing call's errno {o['last_errno']}")
+    if length == 0 and r != 0 and (o["calls"] == 0 or o["last_errno"] == 0):
+        bad.append(f"zero-length request returned {r}")
+    if bool(o["blocking_after"]) != bool(blocking):
+        bad.append(f"blocking mode changed from {blocking} to {o['blocking_after']}")
+    if entry in ("read", "recv"):
+        want = [0xA0 + i for i in range(min(moved, 8))]
+        if o["buf"][:len(want)] != want:
+            bad.append(f"buffer {o['buf']} is not the stream prefix {want}")
+    else:
+        want = [0x40 + i for i in range(min(moved, 8))]
+        if o["sink"][:len(want)] != want:
+            bad.append(f"peer got {o['sink']} instead of {want}")
+    return bad
+
+
+@replayer("c16_zero_len_")
+def _replay_zero_len(prop, harness, rec):
+    entry = harness.rsplit("_", 1)[1]
+    script = _script_from(rec)
+    blocking = _int(rec, 7, signed=False)
+    blocking = 1 if blocking is None else (blocking & 1)
+    r = run_case(["io", entry, 0, blocking] + script, 20)
+    if "error" in r:
+        return {"status": "unavailable", "detail": r["error"]}
+    bad = _io_oracle(r["out"], blocking, entry, 0)
+    st = "reproduced" if bad else "not_reproduced"
+    return {"status": st, "detail": "; ".join(bad) or "native run satisfies the oracle", "case": ["io", entry, 0, blocking] + script, "out": r["out"]}
+
+
+def _buf_entry(harness):
+    for e in ("recvfrom", "sendto", "read", "recv", "write", "send"):
+        if harness.endswith("_" + e):
+            return {"recvfrom": "recv", "sendto": "send"}.get(e, e)
+    return None
+
+
+@replayer("c16_re")
+@replayer("c16_wr")
+@replayer("c16_se")
+@replayer("c18_mode_")
+def _replay_buf(prop, harness, rec):
+    entry = _buf_entry(harness)
+    if entry is None:
+        return {"status": "unavailable", "detail": "no entry point mapping"}
+    script = _script_from(rec)
+    blocking = (_int(rec, 7, signed=False) or 0) & 1
+    length = _int(rec, 10, signed=False)
+    if length is None or length > 4:
+        return {"status": "unavailable", "detail": "could not decode the counterexample"}
+    r = run_case(["io", entry, length, blocking] + script, 30)
+    if "error" in r:
+        return {"status": "unavailable", "detail": r["error"]}
+    bad = _io_oracle(r["out"], blocking, entry, length)
+    if prop == "C18":
+        bad = [b for b in bad if "blocking mode" in b]
+    st = "reproduced" if bad else "not_reproduced"
+    return {"status": st, "detail": "; ".join(bad) or "native run satisfies the oracle (time-limit / wait-failure choices of the counterexample are not replayable natively)",
+            "case": ["io", entry, length, blocking] + script, "out": r["out"]}
+
+
+@replayer("c18_nonblocking_")
+def _replay_nonblocking(prop, harness, rec):
+    entry = _buf_entry(harness)
+    script = _script_from(rec)
+    length = _int(rec, 10, signed=False)
+    if not script or script[0] != "a" or length is None or not (1 <= length <= 4):
+        script, length = ["a", "d2"], 4
+    r = run_case(["io", entry, length, 0] + script, 30)
+    if "error" in r:
+        return {"status": "unavailable", "detail": r["error"]}
+    o = r["out"]
+    if o is None:
+        return {"status": "reproduced", "detail": "crash", "out": r}
+    if o["ret"] == -1 and o["errno"] == 11 and o["calls"] == 1:
+        return {"status": "not_reproduced", "detail": "returned -1/EAGAIN after one kernel call", "out": o}
+    return {"status": "reproduced", "case": ["io", entry, length, 0] + script, "out": o,
+            "detail": f"non-blocking descriptor, kernel said EAGAIN: hook waited and returned {o['ret']} (errno {o['errno']}) after {o['calls']} kernel calls / {o['elapsed_us']}us"}
+
+
+@replayer("c20_")
+def _replay_c20(prop, harness, rec):
+    """A coroutine blocks in a hooked recv; the peer writes 2 ms later. If readiness wakes the coroutine the
+    latency is ~2 ms; if only the 10 ms wait slice does, it is >= 10 ms."""
+    r = run_case(["wake_latency", 7, 2000], 60)
+    if "error" in r:
+        return {"status": "unavailable", "detail": r["error"]}
+    o = r["out"]
+    if o is None:
+        return {"status": "reproduced", "detail": f"crash: {r['stderr_tail'][-200:]}"}
+    lat = sorted(o["latency_us"])
+    med = lat[len(lat) // 2]
+    st = "reproduced" if med > 7000 else "not_reproduced"
+    return {"status": st, "out": o,
+            "detail": f"median wake latency {med}us for data arriving after 2000us (slice timeout is 10000us)"}
+
+
+@replayer("c25_release_on_drop")
+def _replay_c25_release(prop, harness, rec):
+    r = run_case(["local_drop", 2], 20)
+    if "error" in r:
+        return {"status": "unavailable", "detail": r["error"]}
+    o = r["out"]
+    if o is None:
+        return {"status": "reproduced", "detail": f"crash: {r['stderr_tail'][-200:]}"}
+    st = "reproduced" if o["dropped"] != o["stored"] else "not_reproduced"
+    return {"status": st, "out": o, "detail": f"{o['stored']} values stored, {o['dropped']} dropped when the local storage was dropped"}
